@@ -438,7 +438,7 @@ func c15JudgePos(c *mon.Ctx, in *c15Pos) {
 		c.Count("pos:constructors-agree")
 	}
 	// script -> hash and address
-	lib := bscript.NewFromBytes(append([]byte{}, canon...))
+	lib := bscript.NewFromBytes(mon.Exact(canon))
 	var got []byte
 	if c.Try("bscript.(*Script).PublicKeyHash", func() { got, err = lib.PublicKeyHash() }) {
 		if err != nil || !bytes.Equal(got, h) {
